@@ -13,8 +13,8 @@ from harness import monitors as M
 ROOT = os.path.dirname(os.path.dirname(os.path.abspath(__file__)))
 
 BASE_FILES = ["Base/QcLib.v", "Base/Vec.v", "Model/Econ.v", "Model/EconBase.v", "Model/Init.v",
-              "Model/Events.v", "Model/Sim.v", "Spec/Statements.v", "Corr/Check.v", "Corr/CheckEv.v",
-              "Gen/Facts.v"]
+              "Model/Events.v", "Model/Sim.v", "Model/Tracker.v", "Model/Ingest.v", "Spec/Statements.v",
+              "Corr/Check.v", "Corr/CheckEv.v", "Corr/CheckInit.v", "Gen/Facts.v"]
 
 COMMON_TRUSTED = [
     "Coq 8.16.1 kernel and its vm_compute evaluator (no native_compute)",
@@ -26,7 +26,11 @@ COMMON_TRUSTED = [
 
 ECON_OBS = ["cap", "opt", "constraints", "production", "limiting", "stock.crash", "deliver.matrix",
             "stock.update", "deliver.unmet", "deliver.rebuild_prod", "orders", "overprod", "stock.infinite",
-            "distribute.pre"]
+            "distribute.pre", "dtot.coherent"]
+INIT_OBS = ["init.X0", "init.Z0", "init.Y0", "init.tech", "init.zdist", "init.mask", "init.inv_duration",
+            "init.restoration", "init.capital", "init.stock", "init.scalars"]
+INGEST_OBS = ["ingest.Z", "ingest.Y", "ingest.x", "ingest.capital"]
+CREATE_OBS = ["reb.create.reject", "reb.create.indus", "reb.create.house"]
 
 
 def _p(files, props, facts=()):
@@ -60,12 +64,13 @@ EV_FILES = ["Model/Tracker.v", "Model/RecoveryFns.v", "Spec/StatementsEv.v"]
 REGISTRY.update({
     "C07": dict(**_p(EV_FILES + ["Proofs/C07Proofs.v"], ["Props/C07.v"], ["Arb"]),
                 theorems=["C07_formula_holds", "C07_range_holds", "C07_support_holds", "C07_reject_holds", "C07_perm_holds"],
-                corr=["delta.exceeded", "delta.capital", "delta.arbitrary", "delta.total", "cap"],
+                corr=["delta.exceeded", "delta.capital", "delta.arbitrary", "delta.total", "cap", "init.capital", "ingest.capital"],
                 monitors=[M.mon_c07]),
     "C08": dict(**_p(EV_FILES + ["Proofs/C08Proofs.v"], ["Props/C08.v"], ["Layout", "Ledger"]),
                 theorems=["C08_ledger_cell_holds", "C08_ledger_monotone_holds", "C08_receive_holds", "C08_presented_holds",
                           "C08_creation_holds", "C08_creation_total_holds", "C08_creation_rejects_holds"],
-                corr=["reb.blocks", "reb.ledger_i", "reb.ledger_h", "reb.dmg", "reb.hdmg", "reb.status", "deliver.rebuild_prod"],
+                corr=["reb.blocks", "reb.ledger_i", "reb.ledger_h", "reb.dmg", "reb.hdmg", "reb.status", "deliver.rebuild_prod",
+                      "reb.carry"] + CREATE_OBS,
                 monitors=[M.mon_c08]),
     "C09": dict(**_p(EV_FILES + ["Proofs/C08Proofs.v", "Proofs/C09Proofs.v"], ["Props/C09.v"], ["Ledger", "Arb", "Consts"]),
                 theorems=["C09_recover_holds", "C09_rounding_holds", "C09_linear_shape_holds", "C09_convexe_shape_holds"],
@@ -79,7 +84,7 @@ REGISTRY.update({
     "C11": dict(**_p(EV_FILES + ["Proofs/C07Proofs.v", "Proofs/C11Proofs.v"], ["Props/C11.v"], ["Layout", "Ctor"]),
                 theorems=["C11_ids_activate_holds", "C11_ids_start_holds", "C11_ids_ledgers_holds", "C11_ids_step_holds",
                           "C11_no_internal_error_holds", "C07_perm_holds"],
-                corr=["sched.status", "sched.rid", "sched.count", "reb.status", "reb.rid", "reb.count", "reb.blocks",
+                corr=["sched.status", "sched.rid", "sched.count", "reb.status", "reb.rid", "reb.count", "reb.blocks", "reb.carry",
                       "delta.capital", "delta.arbitrary", "events.error", "rec.oracle"],
                 monitors=[M.mon_run_ok("C11")], extra=X.extra_c11),
 })
@@ -94,7 +99,7 @@ def _select_eventfree(tr):
 REGISTRY.update({
     "C01": dict(**_p(RUN_FILES + ["Proofs/C01Aux.v", "Proofs/C01Proofs.v"], ["Props/C01.v"], ["Divide", "Phases"]),
                 theorems=["C01_step_holds", "C01_run_holds", "C01_zdist_holds"],
-                corr=ECON_OBS, corr_select=_select_eventfree,
+                corr=ECON_OBS + INIT_OBS, corr_select=_select_eventfree,
                 monitors=[M.mon_c01], select=_select_eventfree),
     "C02": dict(**_p(["Spec/ArioSpec.v", "Spec/StatementsSpec.v", "Proofs/C02Proofs.v"], ["Props/C02.v"], ["Phases", "Consts"]),
                 theorems=["C02_refines_holds", "C02_orders_holds", "C02_compose_holds"],
@@ -106,11 +111,11 @@ REGISTRY.update({
     "C13": dict(**_p(EV_FILES + ["Spec/StatementsScale.v", "Proofs/C08Proofs.v", "Proofs/C13ScaleProofs.v"], ["Props/C13.v"], ["Ledger"]),
                 theorems=["C13_conversion_holds", "C13_scale_cap_holds", "C13_scale_opt_holds", "C13_scale_production_holds",
                           "C13_scale_deliver_holds", "C13_scale_overprod_holds", "C13_scale_stock_holds", "C13_scale_orders_holds"],
-                corr=["reb.ledger_i", "reb.ledger_h", "rec.dmg", "rec.hdmg", "reb.dmg", "reb.hdmg"],
+                corr=["reb.ledger_i", "reb.ledger_h", "rec.dmg", "rec.hdmg", "reb.dmg", "reb.hdmg"] + CREATE_OBS,
                 monitors=[M.mon_c08], extra=X.extra_c13),
     "C15": dict(**_p(["Model/Ingest.v", "Spec/StatementsIO.v", "Proofs/C15Proofs.v"], ["Props/C15.v"]),
                 theorems=["C15_canon_holds", "C15_sorted_holds", "C15_canon_mat_rows_holds", "C15_canon_mat_cols_holds"],
-                corr=[], monitors=[], extra=X.extra_c15, no_suite=True),
+                corr=INGEST_OBS + ["init.inv_duration", "init.restoration", "init.capital"], monitors=[], extra=X.extra_c15),
     "C16": dict(**_p(RUN_FILES + ["Proofs/C16Proofs.v"], ["Props/C16.v"], ["Records", "Phases"]),
                 theorems=["C16_compose_holds", "C16_prefix_holds", "C16_rows_holds", "C16_length_holds"],
                 corr=[], monitors=[], extra=X.extra_c16, no_suite=True),
@@ -125,7 +130,7 @@ REGISTRY.update({
                 corr=["sched.status", "rec.status", "overprod"], monitors=[], extra=X.extra_c19),
     "C20": dict(**_p(EV_FILES + RUN_FILES + ["Spec/StatementsWF.v", "Proofs/C20Aux.v", "Proofs/C20Proofs.v"], ["Props/C20.v"], ["Divide"]),
                 theorems=["C20_wf_step_holds", "C20_wf_run_holds", "C20_obs_holds"],
-                corr=ECON_OBS + ["delta.total", "reb.ledger_i", "reb.ledger_h", "rec.dmg", "rec.arb"],
+                corr=ECON_OBS + INIT_OBS + ["delta.total", "reb.ledger_i", "reb.ledger_h", "rec.dmg", "rec.arb", "reb.create.reject"],
                 monitors=[M.mon_finite], extra=X.extra_c20),
 })
 REGISTRY["C05"]["coq_files"] += RUN_FILES + ["Proofs/C16Proofs.v"]
@@ -177,6 +182,20 @@ def evaluate(prop, spec, seed, tier, log):
     # (b) correspondence
     want = set(spec.get("corr", []))
     by_ob = {}
+    from harness import ties as _ties
+    tie_cache = {}
+    by_id = {t["scenario"]["id"]: t for t in traces}
+
+    def is_tie(tag):
+        ob = tag["ob"]
+        fam = "reb" if ob.startswith("reb.") and not ob.startswith("reb.blocks") and not ob.startswith("reb.create") else \
+              ("rec" if ob.startswith("rec.") else None)
+        if fam is None or tag["scn"] not in by_id:
+            return False
+        if tag["scn"] not in tie_cache:
+            tie_cache[tag["scn"]] = _ties.tie_steps(by_id[tag["scn"]])
+        return (tag["t"], fam) in tie_cache[tag["scn"]]
+    n_ties = 0
     csel = spec.get("corr_select")
     allowed = None if csel is None else {t["scenario"]["id"] for t in traces if csel(t)}
     for tag, code, detail in res["verdicts"]:
@@ -188,8 +207,10 @@ def evaluate(prop, spec, seed, tier, log):
     corr_summary = {}
     for ob in sorted(want):
         vs = by_ob.get(ob, [])
-        bad = [(t, c, d) for t, c, d in vs if c != 0]
-        corr_summary[ob] = dict(cases=len(vs), disagreements=len(bad))
+        bad0 = [(t, c, d) for t, c, d in vs if c != 0]
+        bad = [(t, c, d) for t, c, d in bad0 if not (c in (1, 3) and is_tie(t))]
+        n_ties += len(bad0) - len(bad)
+        corr_summary[ob] = dict(cases=len(vs), disagreements=len(bad), rounding_ties=len(bad0) - len(bad))
         name = f"corr:{ob}"
         if bad:
             bad_scn[name] = {t["scn"] for t, _, _ in bad}
